@@ -5,6 +5,7 @@ PA = "src/jaqalpaq/parser/parser.py"
 FM = "src/jaqalpaq/core/algorithm/fill_in_map.py"
 EM = "src/jaqalpaq/core/algorithm/expand_macros.py"
 P = ("C10",)
+ES = "src/jaqalpaq/core/algorithm/expand_subcircuits.py"
 
 VARIANTS = [
     fire("c10-expand-let-flag-ignored",
@@ -38,4 +39,12 @@ VARIANTS = [
     silent("c10-flags-early-return",
            [(PA, "    if expand_let_map:\n        circuit = fill_in_let(circuit, override_dict=override_dict)\n        circuit = fill_in_map(circuit)\n    elif expand_let:\n        circuit = fill_in_let(circuit, override_dict=override_dict)\n",
              "    if expand_let_map or expand_let:\n        circuit = fill_in_let(circuit, override_dict=override_dict)\n        if expand_let_map:\n            circuit = fill_in_map(circuit)\n")], P),
+    # the open finding C10.5 repaired: the replacement block is spliced -> no report at all
+    silent("c10-subcircuit-replacement-spliced",
+           [(ES, "        statements = [self.visit(stmt) for stmt in block.statements]\n        return BlockStatement(parallel=block.parallel, statements=statements)",
+             "        statements = []\n        for stmt in block.statements:\n            new_stmt = self.visit(stmt)\n            if isinstance(stmt, BlockStatement) and stmt.subcircuit and not block.parallel:\n                statements.extend(new_stmt.statements)\n            else:\n                statements.append(new_stmt)\n        return BlockStatement(parallel=block.parallel, statements=statements)")], P),
+    # the same defect in another construct is not covered by the known-finding entry
+    fire("c10-subcircuit-rebuild-inlined",
+         [(ES, "            return self.process_non_subcircuit_block(block)", "            return BlockStatement(parallel=block.parallel, statements=[self.visit(stmt) for stmt in block.statements])")],
+         ("C10.5", "visit_BlockStatement:nested-plain-block"), P),
 ]
